@@ -507,7 +507,9 @@ def run_c17(tier, seed, scale, verif):
     t0 = time.time()
     rng = random.Random(seed * 4099 + 17)
     MSG = "This number needs a different suffix to sound right."
-    leads = ["", "", "The ", "\U0001F389 Happy ", "café — the ", "\U0001F600\U0001F600 on the ", "\U0001D400\U0001D401 the ", "中文 the ", "\tthe "]
+    leads = ["", "", "The ", "\U0001F389 Happy ", "café — the ", "\U0001F600\U0001F600 on the ", "\U0001D400\U0001D401 the ", "中文 the ", "\tthe ",
+             # characters a layer might be tempted to drop before it counts columns: byte order mark, zero-width and soft hyphen
+             "\ufeff", "\ufeffThe ", "\u200bthe ", "co\u00adop\u00aderation on the ", "\u2060the ", "e\u0301te\u0301 the "]
     tails = [" birthday", " item.", " of May", "", " place, then", " \U0001F600 time."]
     ndocs = int((1500 if tier == "quick" else 40000) * scale) or 1
     docs = []
